@@ -33,7 +33,7 @@
 From Coq Require Import List ZArith Bool.
 Import ListNotations.
 From Goat Require Import Model.Client Model.Server Model.Sys Proofs.SysLog Proofs.SysProofs Proofs.SysC01 Proofs.SysC02 Proofs.SysC02b
-  Proofs.SysC02c Proofs.SysC02d Proofs.SysC02e Proofs.SysC02f Proofs.SysC02h Proofs.SysC02j Proofs.SysC02k Proofs.SysC02l Proofs.SysC02m Proofs.SysC02n Proofs.SysC02o Proofs.SysC02p.
+  Proofs.SysC02c Proofs.SysC02d Proofs.SysC02e Proofs.SysC02f Proofs.SysC02h Proofs.SysC02j Proofs.SysC02k Proofs.SysC02l Proofs.SysC02m Proofs.SysC02n Proofs.SysC02o Proofs.SysC02p Proofs.SysC02q Proofs.SysC02r.
 Open Scope Z_scope.
 
 (* ====================== fault-free runs ====================== *)
@@ -161,9 +161,30 @@ Theorem C02_args_prefix_c2h : forall pol ls s h k c kc,
 Proof. exact SysC02p.C02_args_prefix_c2h. Qed.
 Print Assumptions C02_args_prefix_c2h.
 
+(* ... and towards the caller: the messages RecvMsg returned are a PREFIX of the (decodable, i.e. non-negative) ARGUMENTS of
+   the handler's SendMsg calls that returned nil, in call order ([hargs]) *)
+Theorem C02_args_prefix_h2c : forall pol ls s h k c kc,
+  Sys.lrun pol Sys.init ls = Some s -> fault_free ls = true ->
+  nth_error (hs (sv s)) h = Some k -> nth_error (calls (cl s)) c = Some kc -> k_unary kc = false -> k_pc kc = POpen ->
+  k_id kc = fid (h_req k) ->
+  is_prefix (msgs c (Client.log (cl s))) (filter (fun b => 0 <=? b) (hargs h (Server.log (sv s)))).
+Proof. exact SysC02r.C02_args_prefix_h2c. Qed.
+Print Assumptions C02_args_prefix_h2c.
+
 (* ====================== all runs: arbitrary faults, cancellation, resets ====================== *)
 (* the list-level link, caller -> handler: the body envelopes written under a stream's id, in wire order, are body_env id b
    for the arguments b of the stream's SendMsg calls that returned nil, in call order *)
+(* the list-level link, handler -> caller (all runs of the system): the bare messages (a body, no trailer, no reset) the
+   server's writer took under the id of an open stream, in order, are exactly the frames of the SendMsg calls of THE handler
+   of that stream that returned nil, in call order; server side (arbitrary peer): Proofs/SysC02q.v, invariants FS and SD *)
+Theorem C02_args_h2c : forall pol ls s h k c kc,
+  Sys.lrun pol Sys.init ls = Some s ->
+  nth_error (hs (sv s)) h = Some k -> nth_error (calls (cl s)) c = Some kc -> k_unary kc = false -> k_pc kc = POpen ->
+  k_id kc = fid (h_req k) ->
+  filter msgk (ServerProto.idf (k_id kc) (ServerProto.tk (Server.log (sv s)))) = hsentF h (Server.log (sv s)).
+Proof. exact SysC02r.C02_args_h2c. Qed.
+Print Assumptions C02_args_h2c.
+
 Theorem C02_args_c2h : forall ls s c k,
   Client.lrun Client.init ls = Some s -> nth_error (calls s) c = Some k -> k_unary k = false ->
   filter hasb (by_id (k_id k) (cwrites (Client.log s))) = map (body_env (k_id k)) (csent c (Client.log s)).
@@ -266,6 +287,7 @@ Example C02_demo_complete :
          end
       /\ msgs 0 (Client.log (cl s)) = pb (accepted 1 (sv s))
       /\ csent 0 (Client.log (cl s)) = [11; 12]
+      /\ hargs 0 (Server.log (sv s)) = [11; 12]
   | None => False
   end.
 Proof. vm_compute. repeat split; reflexivity. Qed.
